@@ -124,7 +124,10 @@ fn write_workspace(root: &Path, dep_lists: &[Vec<usize>], dangling: Option<usize
                 p.push_str(&format!("\n[[dependencies]]\nuri = \"libcnb:{}\"\n", id(*j)));
             }
             if dangling == Some(i) {
-                p.push_str("\n[[dependencies]]\nuri = \"libcnb:verif/missing\"\n");
+                // unknown in three ways: a well-formed id nobody has, a string that is not a valid
+                // buildpack id, a reserved id
+                let missing = ["verif/missing", "demo/my_buildpack", "app"][i % 3];
+                p.push_str(&format!("\n[[dependencies]]\nuri = \"libcnb:{missing}\"\n"));
             }
             // non-libcnb dependencies never become edges
             p.push_str("\n[[dependencies]]\nuri = \"docker://docker.io/x/y\"\n");
@@ -310,7 +313,7 @@ pub fn run(args: &Args) {
     rep.cov("dangling_cases", dj.len() as u64);
     rep.cov("distinct_nontrivial", nontrivial);
     rep.cov("distinct_outcomes", json!(shapes));
-    rep.cov("rule", "every labelled DAG on <= n nodes (n<=4: every permutation of every dependency list; n=5: ascending and descending), written as composite / libcnb.rs buildpack directories and loaded by the real build_libcnb_buildpacks_dependency_graph; every ordered non-empty root selection through the real get_dependencies; plus every DAG on <= 4 nodes with one dangling libcnb: dependency at each node. non-trivial = workspaces with at least one edge");
+    rep.cov("rule", "every labelled DAG on <= n nodes (n<=4: every permutation of every dependency list; n=5: ascending and descending), written as composite / libcnb.rs buildpack directories and loaded by the real build_libcnb_buildpacks_dependency_graph; every ordered non-empty root selection through the real get_dependencies; plus every DAG on <= 4 nodes with one dangling libcnb: dependency at each node (a well-formed unknown id, an invalid id, or a reserved id, by node index). non-trivial = workspaces with at least one edge");
     rep.cov("bound", json!({"max_nodes": max_n}));
     rep.cov("exhaustive", true);
     rep.sample(json!({"dep_lists": jobs[jobs.len() / 2].1, "roots": "every ordered non-empty selection"}));
